@@ -270,6 +270,9 @@ func runWorkloadIn(in wlInput, scratch []byte) (out []byte) {
 		d = append(scratch[:0], in.data...) // the caller's reused array
 	} else {
 		d = append(make([]byte, 0, len(in.data)+in.opt%3), in.data...) // private copy with private spare capacity
+		for i := range d[len(d):cap(d)] {
+			d[len(d):cap(d)][i] = 0xA7 // whatever was in the caller's buffer before
+		}
 	}
 	switch in.kind {
 	case wlCSSLex:
@@ -520,7 +523,7 @@ func runWorkloadIn(in wlInput, scratch []byte) (out []byte) {
 			z.Restore()
 		}
 		script(parse.NewInput(&yieldReader{data: d, chunk: 1 + in.opt%7}))
-		script(buffer.NewLexerBytes(append(make([]byte, 0, len(d)+2), d...)))
+		script(buffer.NewLexerBytes(d))
 		script(parse.NewInputString(string(d)))
 	case wlStreamLexer:
 		var z *buffer.StreamLexer
